@@ -922,7 +922,22 @@ pub fn run_case(c: &Case, rec: &mut Recorder, record: bool, tag: &str) -> Outcom
     } else if !c.recs.is_empty() {
         fails.push((format!("panic: {}", r.as_ref().err().unwrap()), String::new()));
     }
-    let interesting = !fails.is_empty() || proof == "secure";
+    // everything is evaluated; what is *recorded* (sent to the model, kept as replayable case): every
+    // case the caller asks for, every unattributed failure, and the first 1500 failures of each class
+    let mut interesting = false;
+    for (_, class) in &fails {
+        if class.is_empty() {
+            interesting = true;
+        } else {
+            let k = format!("{tag}.failures-recorded.{class}");
+            if rec.stats.get(&k).copied().unwrap_or(0) < 1500 {
+                rec.stat(&k);
+                interesting = true;
+            } else {
+                rec.stat(&format!("{tag}.failures-counted-not-recorded.{class}"));
+            }
+        }
+    }
     if !(record || interesting) {
         rec.stat(&format!("{tag}.evaluated-not-recorded"));
         return Outcome { proof, idx: None };
@@ -1294,8 +1309,8 @@ fn enumerate(o: &Opts, rec: &mut Recorder) {
     let qtypes = [T_A, T_DS];
     let params: Vec<(Vec<u8>, u16)> = vec![(vec![], 0), (vec![0xab], 1)];
     let mut counter: u64 = 0;
-    let stride_z = if thorough { 1 } else { 37 };
-    let record_every: u64 = if thorough { 29 } else { 7 };
+    let stride_z = if thorough { 3 } else { 37 };
+    let record_every: u64 = if thorough { 11 } else { 3 };
     for (zi, names) in zones.iter().enumerate() {
         if zi % stride_z != (o.seed as usize) % stride_z {
             continue;
